@@ -43,19 +43,21 @@ SINGLE_VARIANT = ("null", "stream")      # kinds with one representative only
 
 
 class Off:
-    """a file offset known only after layout: ('xref', k) | ('eof', extra) | ('obj', n) | ('mid', n)"""
+    """a file offset known only after layout: ('xref', k) | ('xstm', k) | ('eof', extra) | ('obj', n) | ('mid', n).
+    ws: the offset of the end-of-line character just before the target instead of the target's first byte (some
+    producers write such offsets, readers skip the white space)"""
 
-    def __init__(self, what, arg=0):
-        self.what, self.arg = what, arg
+    def __init__(self, what, arg=0, ws=False):
+        self.what, self.arg, self.ws = what, arg, ws
 
     def __repr__(self):
-        return "Off(%s,%s)" % (self.what, self.arg)
+        return "Off(%s,%s%s)" % (self.what, self.arg, ",ws" if self.ws else "")
 
     def __eq__(self, o):
-        return isinstance(o, Off) and (o.what, o.arg) == (self.what, self.arg)
+        return isinstance(o, Off) and (o.what, o.arg, o.ws) == (self.what, self.arg, self.ws)
 
     def __hash__(self):
-        return hash((self.what, self.arg))
+        return hash((self.what, self.arg, self.ws))
 
 
 class Rev:
@@ -199,7 +201,7 @@ def parse_site(s):
 class Fault:
     """one fault as enumerated by Faults.tla:
          cls value   : site, kind in retype|delete|ref_self|ref_missing|ref_loop1|ref_loop2|
-                                     off_self|off_dangling|off_cycle|off_garbage|rawstr,  to (retype: target kind,
+                                     off_self|off_dangling|off_cycle|off_garbage|off_ws|off_self_ws|off_cycle_ws|rawstr,  to (retype: target kind,
                                      'x' direct / 'r_x' through a reference), variant
          cls payload : site = owner of the stream, kind corrupt|truncate, pos, mode (corrupt: flip|low)
          cls file    : kind truncate, pos = number of bytes kept
@@ -273,9 +275,11 @@ def plan(f, base):
         fixed = Off("eof", 1000)
     elif f.kind == "off_cycle":
         fixed = Off("xref", -1)          # the newest section: every chain that reaches it starts over
+    elif f.kind == "off_cycle_ws":
+        fixed = Off("xref", -1, ws=True)
     elif f.kind == "off_garbage":
         fixed = Off("mid", 0)
-    elif f.kind in ("ref_self", "off_self"):
+    elif f.kind in ("ref_self", "off_self", "off_self_ws", "off_ws"):
         fixed = None
     else:
         raise MachineryError("faultdoc: unknown fault kind %r" % f.kind)
@@ -287,6 +291,8 @@ def plan(f, base):
             return Ref(ownerobj)
         if f.kind == "off_self":
             return Off("xref", k)
+        if f.kind == "off_self_ws":
+            return Off("xref", k, ws=True)
         return copy.deepcopy(fixed) if fixed is not DELETE else DELETE
 
     return helpers, make
@@ -321,6 +327,9 @@ class Layout:
         return (self.size, tuple(self.xref_pos), tuple(sorted(self.obj_off.items())), tuple(sorted(self.xstm_pos.items())))
 
     def offset_of(self, o):
+        if o.ws:
+            exact = self.offset_of(Off(o.what, o.arg))
+            return exact - 1 if exact > 0 else 0
         if o.what == "xref":
             if not self.xref_pos:
                 return 0
@@ -389,6 +398,12 @@ def _assemble_once(seed, f, prevlay, header):
         if make is None or f.owner != owner:
             return v
         applied[0] += 1
+        if f.kind == "off_ws":
+            # the same target, written as the offset of the white space in front of it
+            cur = v if not f.path else _get_container(v, f.path)[f.path[-1]]
+            if not isinstance(cur, Off):
+                raise MachineryError("faultdoc: off_ws at %s, which holds no file offset" % f.site)
+            return set_at(v, f.path, Off(cur.what, cur.arg, ws=True))
         return set_at(v, f.path, make(ownerobj, k))
 
     def payload(owner, data):
